@@ -312,7 +312,7 @@ def gen_profile(rng, vtype, m):
     if vtype == 'approval':
         return gen_approval(rng, m)
     if vtype == 'score' and rng.random() < 0.3:
-        return gen_score_tied(rng, max(m, 4))
+        return gen_score_tied(rng, m)
     if vtype == 'score':
         return gen_score(rng, m)
     if vtype == 'pairwise':
